@@ -450,6 +450,22 @@ def run(chk):
 
 
 def replay(path):
+    """re-runs the stored scenario (same seed and parameters) on the current tree"""
+    import logging
+    logging.disable(logging.CRITICAL)
     r = json.load(open(path))
-    print(json.dumps(r.get("first") or r.get("broken_theorems") or r.get("correspondence_breaks"), indent=1, default=str)[:3000])
-    return 1 if r.get("first") else 0
+    v = r.get("first")
+    if not v:
+        print(json.dumps(r.get("broken_theorems") or r.get("correspondence_breaks"), indent=1, default=str)[:3000])
+        return 0
+    i = v["input"]
+    if i.get("role") == "server":
+        info = server_scenario(i["seed"], i["cause"], i["consumer_blocked"], i["line_level"])
+    else:
+        point = i["point"] if i["point"] != "setup" else "idle"
+        info = scenario(i["seed"], i["cause"], point, i["consumer_blocked"] or False, i["line_level"])
+    now = verdict(info, i["cause"], i["consumer_blocked"])
+    print("scenario: %s" % json.dumps(i))
+    print("recorded: %s" % v["what"])
+    print("now     : %s" % (("VIOLATED: %s %s%s" % (now[0], json.dumps(now[1], default=str)[:300], " [known finding %s]" % now[2] if now[2] else "")) if now else "the statement holds on this run"))
+    return 1 if (now and not now[2]) else 0
